@@ -22,6 +22,8 @@ THEOREMS = [
     "OQuPyVerif.Props.C13.labels_monotone", "OQuPyVerif.Props.C13.tempo_history_grid",
     "OQuPyVerif.FloatGrid.rnd_err", "OQuPyVerif.FloatGrid.rnd_mono",
     "OQuPyVerif.FloatGrid.steps_mono",
+    "OQuPyVerif.Props.C13.mfd_add_is_spec", "OQuPyVerif.Props.C13.dynamics_add_is_dynAdd",
+    "OQuPyVerif.Props.C13.mfd_sorted_aligned",
     "OQuPyVerif.Props.C13.grid_lattice_quick",
     "OQuPyVerif.Props.C13.dynamics_sorted_aligned",
     "OQuPyVerif.Props.C13.dynamics_sorted_aligned_all",
@@ -163,6 +165,39 @@ def correspondence(res, tier, rng):
             " ".join(rat(float(t)) for t in gdyn.times), ("grad", s, d, n, rec))
         res.count("cd:record_all=%s" % rec)
 
+    # Dynamics.add / MeanFieldDynamics.add with out-of-order times and tagged states / fields
+    from oqupy.dynamics import Dynamics, MeanFieldDynamics
+    nadd = 25 if tier == "quick" else 200
+    for i in range(nadd):
+        m = rng.randrange(1, 4)
+        k = rng.randrange(1, 7)
+        ts = [rng.choice([0.0, 0.1, 0.2, 0.30000000000000004, 0.3, -0.5, 1.5, rng.uniform(-2, 2)])
+              for _ in range(k)]
+        mfd = MeanFieldDynamics()
+        toks = []
+        for j, t in enumerate(ts):
+            tags = [100 * (j + 1) + q for q in range(m)]
+            mfd.add(t, [np.array([[tag, 0], [0, 0]], dtype=complex) for tag in tags], complex(7 * (j + 1)))
+            toks.append("%s:%d:%s" % (rat(t), 7 * (j + 1), ",".join(str(x) for x in tags)))
+        sys_s = " / ".join(
+            " ".join(rat(float(x)) for x in d.times) + " # " +
+            " ".join(str(int(round(st[0, 0].real))) for st in d.states)
+            for d in mfd.system_dynamics)
+        add("mfd " + " ".join(toks),
+            "%s | %s | %s" % (" ".join(rat(float(x)) for x in mfd.times),
+                              " ".join(str(int(round(f.real))) for f in mfd.fields), sys_s),
+            ("mfd-add", m, ts))
+        dyn = Dynamics()
+        toks = []
+        for j, t in enumerate(ts):
+            dyn.add(t, np.array([[j + 1, 0], [0, 0]], dtype=complex))
+            toks.append("%s:%d" % (rat(t), j + 1))
+        add("dynadd " + " ".join(toks),
+            "%s | %s" % (" ".join(rat(float(x)) for x in dyn.times),
+                         " ".join(str(int(round(st[0, 0].real))) for st in dyn.states)),
+            ("dyn-add", ts))
+        res.count("add-history:len=%d" % k)
+
     out = fw.run_driver(PID, lines)
     if len(out) != len(lines):
         raise fw.Infra("driver returned %d lines for %d inputs" % (len(out), len(lines)))
@@ -218,6 +253,41 @@ def search(res, rng=None):
             res.fail("step-count:PtTempo start=%s dt=%s end=%r" % (s_l, d_l, e),
                      {"api": "PtTempo", "start_time": s, "dt": d, "end_time": e,
                       "expected_steps": m, "got_steps": got})
+    # (1b) an end time clearly below a grid point (not a rounding artefact) must NOT reach it
+    for (s_l, d_l, m, frac) in [("0.0", "0.01", 400, 2e-3), ("1.5", "0.05", 600, 1e-3),
+                                ("0.0", "0.1", 1000, 1e-3), ("-0.3", "0.2", 37, 1e-4),
+                                ("0.5", "0.001", 900, 5e-3)]:
+        s, d = float(s_l), float(d_l)
+        e = s + (m - frac) * d
+        stub = NS(_start_time=s, _parameters=NS(dt=d))
+        for api, f in (("Tempo", oqupy.Tempo._get_num_step),
+                       ("MeanFieldTempo", oqupy.MeanFieldTempo._get_num_step)):
+            got = f(stub, 0, e)
+            if got != m - 1:
+                res.fail("step-count-offgrid:%s start=%s dt=%s end=%r" % (api, s_l, d_l, e),
+                         {"api": api, "start_time": s, "dt": d, "end_time": e,
+                          "expected_steps": m - 1, "got_steps": got,
+                          "how": "end_time is %g steps below grid point %d: only %d whole steps fit"
+                                 % (frac, m, m - 1)})
+    # (1c) Dynamics / MeanFieldDynamics: times, fields and states stay sorted and aligned for
+    #      adds in any order
+    from oqupy.dynamics import Dynamics, MeanFieldDynamics
+    for ts in ([0.3, 0.0, 0.1, 0.2], [1.0, 0.5], [0.2, 0.2, 0.1], [0.0, 0.1, 0.2]):
+        mfd, dyn = MeanFieldDynamics(), Dynamics()
+        for j, t in enumerate(ts):
+            mfd.add(t, [np.array([[t, 0], [0, 0]], dtype=complex)] * 2, complex(t))
+            dyn.add(t, np.array([[t, 0], [0, 0]], dtype=complex))
+        ok = list(mfd.times) == sorted(ts) and [f.real for f in mfd.fields] == sorted(ts) \
+            and all([st[0, 0].real for st in d.states] == sorted(ts) and list(d.times) == sorted(ts)
+                    for d in mfd.system_dynamics) \
+            and list(dyn.times) == sorted(ts) and [st[0, 0].real for st in dyn.states] == sorted(ts)
+        if not ok:
+            res.fail("alignment:add-out-of-order times=%s" % ts,
+                     {"api": "MeanFieldDynamics.add / Dynamics.add", "times_added": ts,
+                      "times": [float(x) for x in mfd.times],
+                      "fields": [float(f.real) for f in mfd.fields],
+                      "system0_states": [float(st[0, 0].real) for st in mfd.system_dynamics[0].states],
+                      "dynamics_states": [float(st[0, 0].real) for st in dyn.states]})
     # (2) labels: every state is labelled start + k dt; final-only label is start + n dt
     sysm = oq.cheap_system()
     for (s, d, n) in [(0.0, 0.1, 3), (0.5, 0.2, 5), (-0.3, 0.05, 2), (1.7, 0.3, 1), (0.0, 0.1, 1)]:
@@ -286,7 +356,7 @@ def run(tier, seed, replay):
         "decimal literals are parsed correctly rounded",
     ]
     res.not_shown = ["monotonicity of labels needs dt >= 0 (TempoParameters enforces dt > 0)"]
-    fw.standard_pipeline(res, ["StepCount"], list(THEOREMS))
+    fw.standard_pipeline(res, ["StepCount", "DynamicsAdd"], list(THEOREMS))
     if tier == "thorough":
         ok, out = fw.lake_build(["OQuPyVerif.Props.C13Lattice"], timeout=7000)
         res.oblige("lake build OQuPyVerif.Props.C13Lattice: grid_lattice_full "
